@@ -66,10 +66,30 @@ class Machine(RuleBasedStateMachine):
                             mm.message + "  | history: " + " ; ".join(self.w.history_text(12)))
 
     # -- building the pool ------------------------------------------------------------------------
+    BIG = False
+
     @initialize(data=st.data())
     def first(self, data):
         m = data.draw(S.trees(NAMES, depth=2, const_bias=2))
         self._apply({"op": "add", "node": self.w.encode(m)})
+        if self.BIG:
+            # a wide product / sum over the first pool member (shared object): differentiating it symbolically exhausts
+            # the library's 1000-step budget, the regime in which KF2 lives and next to which other defects can hide
+            small = self.w.models[0]
+            k = data.draw(st.integers(35, 60))
+            t = "Multiply"
+            kids = []
+            for i in range(k):
+                w = data.draw(st.integers(0, 4))
+                v = ("Variable", NAMES[i % 3])
+                kids.append([("Add", (small, ("Constant", i % 5 + 1))), ("Sine", ("Multiply", (small, v))), ("Negation", ("Negation", v)),
+                             ("Multiply", (("Constant", 1), small, v)), ("Cosine", ("Add", (v, small)))][w])
+            self._apply({"op": "add", "node": self.w.encode((t, tuple(kids)))})
+            self._apply({"op": "as_expression", "i": 1, "var": data.draw(st.sampled_from(NAMES)), "early": False, "route": "Partial"})
+            # ... and right afterwards the small shared member must still simplify like a fresh copy
+            self._apply({"op": "normalize", "i": 0})
+            self._apply({"op": "as_expression", "i": 0, "var": data.draw(st.sampled_from(NAMES)), "early": False,
+                         "route": data.draw(st.sampled_from(["Partial", "Differential"]))})
 
     MAX_POOL = 8
 
@@ -203,6 +223,14 @@ def make_machine(stats):
     return C09Machine
 
 
+def make_budget(stats):
+    class C09Budget(Machine):
+        BIG = True
+        MAX_POOL = 5
+    C09Budget.stats = stats
+    return C09Budget
+
+
 def make_soak(stats):
     """Few objects, very many operations on them (400 steps): state that only goes wrong after it has been touched
     hundreds of times (counters, budgets, growing caches)."""
@@ -231,7 +259,8 @@ def parts(tier):
     n = 1500 if tier == "quick" else 30000
     return [machine_part("histories", make_machine, n, steps=30),
             machine_part("long-histories", make_machine, max(16, n // 10), steps=80),
-            machine_part("soak", make_soak, 48 if tier == "quick" else 480, steps=250)]
+            machine_part("soak", make_soak, 48 if tier == "quick" else 480, steps=250),
+            machine_part("budget", make_budget, 48 if tier == "quick" else 320, steps=6)]
 
 
 def replay(case):
